@@ -166,6 +166,9 @@ func (h transactionsResourceHandler) Expand(_ common.ResourceQuery[any], propert
 	if property != "effectiveVolumes" {
 		return nil, nil, nil
 	}
+	if !h.store.ledger.HasFeature(features.FeatureMovesHistoryPostCommitEffectiveVolumes, "SYNC") {
+		return nil, nil, NewErrMissingFeature(features.FeatureMovesHistoryPostCommitEffectiveVolumes)
+	}
 
 	ret := h.store.db.NewSelect().
 		TableExpr(
